@@ -241,10 +241,17 @@ def r06_3(chk, tier):
             cmp_ = G.comparison(nd.ast)
             arg = A.text(A.strip((c.get('args') or [None])[0], casts=True))
             want_arg = 'next_stringref_' if enc else 'stringref_map_stack_.back().size()'
+            # orientation-free: `length >= min(...)` with the eligible outcome on the true edge, or its negation `length < min(...)` with
+            # the eligible outcome on the false edge; the call may stand on either side
+            elig = True
+            if cmp_ is not None and any(y is c for y in A.walk(cmp_[1])):
+                cmp_ = (G.FLIP[cmp_[0]], cmp_[2], cmp_[1])
+            if cmp_ is not None and cmp_[0] == '<':
+                cmp_ = ('>=', cmp_[1], cmp_[2]); elig = False
             lhs = A.strip(cmp_[1], casts=True) if cmp_ is not None else None
             ok_cmp = cmp_ is not None and cmp_[0] == '>=' and any(y is c for y in A.walk(cmp_[2])) and \
                      (A.callee_name(lhs) in ('size', 'length') or (lhs is not None and lhs.get('k') == 'DeclRefExpr' and lhs.get('n') in ('length', 'size', 'len')))
-            te = [e for e in nd.succ if e.label is True]
+            te = [e for e in nd.succ if e.label is elig]
             appends = False
             if te:
                 for x in G.region_of_edge(g, te[0]):
@@ -299,8 +306,20 @@ def r06_5(chk, tier):
             n += 1
             site = U.site(fn, 'string write#%d' % (i + 1))
             # every path to the write passes the accounting, or leaves the eligibility test on its false side
-            exempt_edges = [e for e in g.rpo if e.kind == 'edge' and e.label is False and isinstance(e.ast, dict) and
-                            ('min_length_for_stringref' in A.text(e.ast) or A.text(e.ast).strip() == 'pack_strings_')]
+            def not_eligible(e):
+                # outcome of a branch that means "this string gets no index": packing is off, or it is shorter than the minimum
+                a = A.strip(e.ast, casts=True); lab = e.label
+                while a is not None and a.get('k') == 'UnaryOperator' and a.get('op') == '!':
+                    a = A.strip(a.get('sub'), casts=True); lab = not lab
+                if a is None: return False
+                if a.get('k') == 'MemberExpr' and a.get('n') == 'pack_strings_': return lab is False
+                cm = G.comparison(a)
+                if cm and any(A.callee_name(y) == 'min_length_for_stringref' for y in A.calls_in(a)):
+                    op = cm[0]
+                    if any(A.callee_name(y) == 'min_length_for_stringref' for y in A.calls_in(cm[1])): op = G.FLIP[op]
+                    return (op == '>=' and lab is False) or (op == '<' and lab is True)
+                return False
+            exempt_edges = [e for e in g.rpo if e.kind == 'edge' and e.label in (True, False) and isinstance(e.ast, dict) and not_eligible(e)]
             ok = nd is not None and (nd in acct or not g.can_reach(g.entry, [nd], avoid=acct + exempt_edges))
             if ok: chk.ok('R06.5', site, {'function': fn['n'], 'line': c.get('l')})
             else: chk.fail('R06.5', site, fn['file'], c.get('l'), '%s writes a string (%s) at line %s without stringref accounting: with pack_strings a decoder gives this string an index the encoder does not count, and every later reference resolves to the wrong string' % (fn['n'], what, c.get('l')), None, fn['q'])
